@@ -1,5 +1,10 @@
 (* C18 -- the bytes of the protobuf writer decode under the generated .proto.
-   This file only pins statements; proofs live in Proto/SchemaProofs.v. *)
+   This file only pins statements; proofs live in Proto/SchemaProofs.v (numbering, sweeps, validity) and
+   Proto/DecodeProofs.v (unbounded decoding theorem).
+   Finding classes: inside the type universe [Known_C18] = [Known_C17], i.e. [Known_ty] (CHOICE with a NULL
+   alternative F18-2, CHOICE with a SEQUENCE OF alternative F18-4, SEQUENCE OF SEQUENCE OF F18-3, and SEQUENCE OF NULL
+   F18-5 = constructor [K_list_null], witness [C18_refuted_list_of_null]) or a BitVec with excess bytes; at the
+   declaration level the SET numbering class F18-1 ([Known_set_order]). *)
 From A1 Require Import Proto.Wire Proto.Rw Proto.Schema Proto.Proofs Proto.SchemaProofs Proto.RwLemmas
   Proto.RoundtripProofs Proto.DecodeProofs.
 Local Open Scope N_scope.
@@ -107,7 +112,8 @@ Example C18_nonvacuous :
   = Some [BNum 2; BRep [BNum (-1); BNum 2; BNum (-2)]].
 Proof. vm_compute. repeat split; try reflexivity. do 13 right. left. reflexivity. Qed.
 
-(* NEW class (model level): SEQUENCE OF NULL is declared `repeated bytes` but no element is ever written *)
+(* F18-5 (zoo type 21, corpus/C18/f18-5-list-of-null.txt): SEQUENCE OF NULL is declared `repeated bytes` but no
+   element is ever written *)
 Theorem C18_refuted_list_of_null :
   let t := TSeq [(false, TSeqOf TNull); (false, TInt KU8)] in
   let v := VSeq [VList [VNull; VNull]; VInt 7] in
